@@ -1,5 +1,5 @@
 #!/venv/bin/python
-"""usage: store_round2.py <dir with m*.diff t*.diff demo_m*.py variants.json> <Cxx>
+"""usage: [ROUND=r3] store_round2.py <dir with m*.diff t*.diff demo_m*.py variants.json> <Cxx>
 Validates every variant of a round-2 seeding directory on a scratch worktree
 of /repo HEAD (suite passes with it; mutant demos fail with / pass without;
 twins: all demos of the directory still pass) and stores it under
@@ -16,6 +16,7 @@ src, pid = sys.argv[1], sys.argv[2]
 extra = sys.argv[3:]
 HERE = os.path.dirname(os.path.dirname(os.path.abspath(__file__)))
 PY = "/venv/bin/python"
+ROUND = os.environ.get("ROUND", "r2")
 variants = {}
 vj = os.path.join(src, "variants.json")
 if os.path.exists(vj):
@@ -35,7 +36,7 @@ def sh(cmd, cwd):
 for diff in sorted(glob.glob(os.path.join(src, "[mt][0-9]*.diff"))):
     name = os.path.basename(diff)[:-5]
     kind = "mutant" if name[0] == "m" else "twin"
-    wt = tempfile.mkdtemp(prefix="r2-")
+    wt = tempfile.mkdtemp(prefix="seedstore-")
     subprocess.run(["git", "-C", "/repo", "worktree", "add", "-q", "--detach",
                     wt, "HEAD"], check=True)
     try:
@@ -76,7 +77,7 @@ for diff in sorted(glob.glob(os.path.join(src, "[mt][0-9]*.diff"))):
                 "failed" not in clean and "failed" in seeded
         else:
             valid = comp and ok_suite and "failed" not in seeded
-        sid = "%s-r2-%s" % (pid, name)
+        sid = "%s-%s-%s" % (pid, ROUND, name)
         dst = os.path.join(HERE, "seeded", sid)
         if valid:
             os.makedirs(dst, exist_ok=True)
@@ -86,8 +87,9 @@ for diff in sorted(glob.glob(os.path.join(src, "[mt][0-9]*.diff"))):
             v = variants.get(name, {})
             meta = {
                 "property": pid, "kind": kind,
-                "origin": "round 2: independent sub-agent given only the "
-                          "property text and its own scratch worktree",
+                "origin": "round %s: independent sub-agent given only the "
+                          "property text and its own scratch worktree"
+                          % ROUND[1:],
                 "summary": v.get("summary"),
                 "needs_to_manifest": v.get("needs_to_manifest"),
                 "files_changed": v.get("files_changed"),
